@@ -124,6 +124,14 @@ condition (`_dead_branch`, `_cf`); hook stores may carry any value expression ov
 (`_remove_existing(task)`); `self._holds(task)` (validation + `task in self._list`) is the membership test; the children facade's
 remove may be inherited; an unconditional `_detach()` of all old children is UNDECIDED when `_detach` itself tests the parent.
 Not decided: reorder through an id->task dict (C16-r102): its defect needs a repeated id in the argument (C01's subject).
+
+Round 11: parent setter: the sentinel hand-over may be written as the assignment the sentinel's append performs
+(`self.parent = self.__wbs._root()`, under `parent is None` only; any other value of a recursive own-parent store is left over).
+move may prepare the new order in a working copy (`W = self._list.copy()`; W.remove / W.insert(W.index(anchor) + k, t);
+`self._list[:] = W` once, outside every loop, on every accepted path - `_working_copy`; an index looked up in the not yet edited
+`self._list` is refuted).  move as one splice `rest[:pos] + tasks + rest[pos:]` with `rest = [t for t in list if t not in tasks]`
+and `tasks` the argument sequence as given is refuted (`_splice_repeats`: a task named twice is listed twice); other slice-store
+shapes stay UNDECIDED.  remove_all: the searchable list may be hoisted into a local (`q = self.tasks; q(key, **kwargs)`).
 """
 from __future__ import annotations
 
